@@ -132,6 +132,55 @@ def view_fill(ctx, I, r, b, own, slices, base_ptr, nret, fn, name):
     return True
 
 
+def forwarded_initialiser(ctx, db, I, r, b, name, targets, config):
+    """One of the analysed slice initialisers has become a thin forward to another one (`alloc_slice_clone(src)` =
+    `alloc_slice_fill_with(src.len(), |i| src[i].clone())`): extent and indices are then decided by the callee's clauses; what
+    is judged here is the count handed over, the per-index generator and that the callee's slice is what is returned.
+    Returns None when the method is not of that form, else (ok, detail)."""
+    P1, P2_, P3_ = ('param', 1), ('param', 2), ('param', 3)
+    own = [e for e in r.events if e.is_own()]
+    fw = [e for e in own if e.kind == 'call' and 'Bump::<MIN_ALIGN>::' in (e.callee or '') and '{closure' not in e.callee and e.callee.split('::')[-1] in targets and e.callee.split('::')[-1] != name]
+    if len(fw) != 1 or any(e.kind in ('copy', 'slice') or (e.kind == 'call' and e.callee in ('core::ptr::write', 'core::ptr::write_bytes')) for e in own):
+        return None
+    f = fw[0]
+    callee = f.callee.split('::')[-1]
+    if not (len(f.args) == 3 and f.args[0] == P1 and callee.endswith('fill_with')):
+        return None
+    ret_ok = r.ret == f.ret or (f.ret is not None and f.ret[0] in ('phi', 'agg') and 'Ok' in I.variants_in(f.ret) and r.ret == I.project_variant(None, f.ret, 'Ok', '0'))
+    gen = f.args[2]
+    if not (gen[0] == 'agg' and gen[1].startswith('closure:')):
+        return (False, 'the generator handed to %s is not a closure of this method' % callee)
+    cid = gen[1][len('closure:'):]
+    ups = dict(gen[3])
+    I2, r2 = arena.run_fn(ctx, cid, config)
+    idx = ('param', 2)
+
+    def upv(k):
+        return ('load', ('fld', ('deref', ('param', 1)), 'closure:%s.upvar%d' % (cid, k)), 0)
+    if name.endswith('slice_clone') or name.endswith('slice_copy'):
+        srck = [int(k[5:]) for k, v in ups.items() if v in (P2_, ('addr', ('local',) + P2_[1:]))]
+        srck = srck or [int(k[5:]) for k, v in ups.items() if P2_ in subterms(v)]
+        cnt_ok = f.args[1] == app('len', P2_)
+        el = ('idx', ('deref', upv(srck[0])), idx) if len(srck) == 1 else None
+        if name.endswith('slice_clone'):
+            val_ok = el is not None and r2.ret is not None and r2.ret[0] == 'call' and r2.ret[1].endswith('Clone::clone') and r2.ret[2] == (('addr', el),)
+        else:
+            val_ok = el is not None and r2.ret == ('load', el, 0) or (r2.ret is not None and r2.ret[0] == 'load' and r2.ret[1] == el)
+        what = 'src.len() slots, slot i = src[i]%s' % ('.clone()' if name.endswith('slice_clone') else '')
+    elif name.endswith('slice_fill_with'):
+        cnt_ok = f.args[1] == P2_
+        ucs = [e for e in r2.events if e.kind == 'usercall']
+        v = r2.ret
+        if v is not None and v[0] == 'agg' and v[1] == 'Result' and v[2] == 'Ok':
+            v = field_of(v, '0')
+        val_ok = len(ucs) == 1 and ucs[0].args and ucs[0].args[0] == idx and v is not None and v[0] == 'call' and v[1] == '<callable>' and v[2] == (idx,)
+        what = 'len slots, slot i = f(i)'
+    else:
+        return None
+    okv = bool(ret_ok and cnt_ok and val_ok)
+    return (okv, '%s through %s (%s)%s' % (what, callee, 'count, generator and returned slice agree' if okv else 'count ok=%s generator ok=%s returned ok=%s' % (cnt_ok, bool(val_ok), bool(ret_ok)), ''))
+
+
 def run(ctx, config='rel-all'):
     db = ctx.db(config)
     A = arena.analyse(ctx, config)
@@ -159,7 +208,14 @@ def run(ctx, config='rel-all'):
         resv = [e for e in own if e.kind == 'call' and e.callee and 'NonNull<u8>' in ((I.db.by_path.get(e.callee) or {}).get('meta', {}).get('output') or '') and len(e.args) > 1]
         slices = [e for e in own if e.kind == 'slice']
         if not resv or not slices:
-            ctx.violation('R1', fn, 'shape', 'no reservation / returned slice found in %s' % fn, b.get('span'))
+            fwd = forwarded_initialiser(ctx, db, I, r, b, name, targets, config)
+            if fwd is None:
+                ctx.violation('R1', fn, 'shape', 'no reservation / returned slice found in %s' % fn, b.get('span'))
+            elif fwd[0]:
+                n1 += 1
+                ctx.ok('R1', '%s forwards to another analysed initialiser: %s' % (fn, fwd[1]), 'forward clause')
+            else:
+                ctx.violation('R1', fn, 'forward', '%s forwards to another initialiser but not with the slots it promises: %s' % (fn, fwd[1]), b.get('span'))
             continue
         n1 += 1
         res = resv[0]
@@ -426,7 +482,8 @@ def run(ctx, config='rel-all'):
         base_ptr = None
         if resv:
             base_ptr = resv[0].ret if not (resv[0].ret[0] == 'phi' and I.variants_in(resv[0].ret) & {'Ok'}) else I.project_variant(None, resv[0].ret, 'Ok', '0')
-        if len(ws) == 1 and len(ucs) == 1 and base_ptr is not None and ws[0].args[0] == base_ptr and ws[0].args[1][0] == 'call' and ws[0].args[1][1] == '<callable>':
+        at_reserved = base_ptr is not None and len(ws) == 1 and (ws[0].args[0] == base_ptr or arena.is_reserved_pointer(I, ws[0].args[0], resv))
+        if len(ws) == 1 and len(ucs) == 1 and at_reserved and ws[0].args[1][0] == 'call' and ws[0].args[1][1] == '<callable>':
             ctx.ok('R2', '%s: f() is called once and its result is written at the reserved pointer' % fn, 'term identity')
         else:
             ctx.violation('R2', fn, 'value-write', '%s does not write the initialiser result exactly once at the reserved pointer' % fn, b.get('span'))
